@@ -183,10 +183,14 @@ def generate(rng, tier, shard, nshards):
             # a disk whose mask is more than a thousand rows tall (judged in bulk: interior 1, exterior 0, outline pixels one by one)
             yield {'lane': 'big-circle', 'r': rng.uniform(300, 1000), 'cx': rng.uniform(-50, 50), 'cy': rng.uniform(-50, 50), 'rs': rs}
             continue
-        if i % 200 == 157 or (tier == 'quick' and i % 200 == 107):
+        if i % 200 == 157 or (tier == 'quick' and i % 200 in (107, 27, 77)) or (tier != 'quick' and i % 200 == 57 + 50):
             # an ellipse whose mask has well over 2**15 pixels, at a general orientation (judged in bulk + a sample of outline pixels)
             a = rng.uniform(110, 400)
-            yield {'lane': 'big-ellipse', 'a': a, 'b': a / rng.uniform(1.2, 3.0), 'theta': rng.uniform(-10, 10), 'cx': rng.uniform(-50, 50), 'cy': rng.uniform(-50, 50),
+            ratio = rng.uniform(1.2, 3.0)
+            if rng.random() < 0.5:
+                # long thin ellipses lying obliquely in a mostly empty box (25 .. 400 px long, 6 .. 20 times longer than wide)
+                a, ratio = rng.uniform(25, 400), rng.uniform(6.0, 20.0)
+            yield {'lane': 'big-ellipse', 'a': a, 'b': a / ratio, 'theta': rng.uniform(-10, 10), 'cx': rng.uniform(-50, 50), 'cy': rng.uniform(-50, 50),
                    'rs': rs}
             continue
         if r < 0.14:
